@@ -84,17 +84,17 @@ package httpd
 //@ ghost var relayCalls int
 //@ ghost var poolPuts int
 
-// A handler is arbitrary user code. Assumed about it: it does not replace the Store's W and P (and cannot touch
-// the unexported id).
+// A handler is arbitrary user code. Assumed about it (/verif/contracts/std/protect.spec): it does not write the
+// Store's own fields, the request line, or the Mux (it sets the status only through W.Write / W.WriteHeader).
 //@ functype HandlerFunc(store)
 //@   requires store != nil
-//@   modifies everything
+//@   modifies region(userMem)
+//@   attr blocking yes
 //@   mayPanic
-//@   ensures store.W == old(store.W) && store.P == old(store.P) && store.id == old(store.id)
 
 //@ func (*Mux).ServeHTTP
 //@   requires mux != nil && r != nil && r.URL != nil && muxOK(mux)
-//@   modifies everything
+//@   modifies region(userMem), fields(Store.W), fields(Store.R), fields(Store.P), fields(Store.I), fields(Store.id), fields(ResponseWriter.Origin), fields(ResponseWriter.Status), fields(Params.K), fields(Params.V), mux.storeID, relayCalls, poolPuts
 //@   mayPanic
 //@   ensures dispatchOnce: relayCalls == old(relayCalls) + 1
 //@   onpanic noPut: poolPuts == old(poolPuts)
@@ -104,3 +104,22 @@ package httpd
 //@   ghost before call HandlerFunc assert ri.nomatch: store.I == mux.routeNotFound && !mux.routeNotFound.registered ==> len(store.P.K) == 0
 //@   ghost after call HandlerFunc set relayCalls = relayCalls + 1
 //@   ghost after call Put set poolPuts = poolPuts + 1
+
+// ---- ResponseWriter (C15): the recorded status is the status on the wire ----
+//@ func (*ResponseWriter).WriteHeader
+//@   requires w != nil && w.Origin != nil
+//@   modifies region(userMem), w.Status, w.Origin.wireCode
+//@   ensures w.Status == code && w.Origin.wireCode == code
+
+//@ func (*ResponseWriter).Write
+//@   requires w != nil && w.Origin != nil
+//@   modifies region(userMem), w.Status, w.Origin.wireCode
+//@   ensures first: old(w.Status) == 0 ==> w.Status == 200 && w.Origin.wireCode == 200
+//@   ensures later: old(w.Status) != 0 ==> w.Status == old(w.Status)
+
+// the request id text is a function of the id buffer (assumed: the bytes are not mutated while the string is in use)
+//@ func (*Store).GetID
+//@   requires store != nil
+//@   modifies nothing
+//@   attr assumed unsafe
+//@   ensures result == bytesText(store.id)
